@@ -953,6 +953,18 @@ EXTERNAL = {n: PyBuiltin(n, f) for n, f in {
     "itertools.repeat": it_repeat, "itertools.combinations": it_combinations, "itertools.chain.from_iterable": it_chain_from_iterable,
     "collections.defaultdict": co_defaultdict, "collections.deque": co_deque,
 }.items()}
+class _FInfo(Model):
+    def a_tiny(self, I):
+        return Num.const(Fraction(2.2250738585072014e-308))
+
+    def a_eps(self, I):
+        return Num.const(Fraction(2.220446049250313e-16))
+
+    def a_max(self, I):
+        return Num.const(Fraction(1.7976931348623157e308))
+
+
+EXTERNAL["numpy.finfo"] = PyBuiltin("numpy.finfo", lambda I, *a: _FInfo())
 EXTERNAL["numpy.float64"] = "float64"
 EXTERNAL["numpy.inf"] = float("inf")
 EXTERNAL["math.inf"] = float("inf")
